@@ -28,6 +28,8 @@ src: conf.c
 enforce: spifconf_open_file
 backend: sat
 timeout: 300
+native: c11_replay
+native_includes: conf.c
 */
 /*@unit
 name: open_file_empty
@@ -36,6 +38,8 @@ src: conf.c
 enforce: spifconf_open_file
 backend: sat
 timeout: 300
+native: c11_replay
+native_includes: conf.c
 */
 #include "vprelude.h"
 #include "env_conf.h"
